@@ -544,6 +544,20 @@ func (c *specCtx) ident(name string) (Val, types.Type) {
 					}
 				}
 			}
+			// range-over-int loops whose body does not use the counter load it only at the end of the body: look in all blocks
+			if c.loopCtx != nil && c.loopCtx.Info != nil && c.loopCtx.Info.Kind != "rangeindex" {
+				for blk := range c.loopCtx.Info.Blocks {
+					for _, in := range blk.Instrs {
+						if ld, ok := in.(*ssa.UnOp); ok {
+							if al, ok := ld.X.(*ssa.Alloc); ok && al.Comment == "rangeint.iter" {
+								if id, ok := c.frame.Cells[al]; ok {
+									return scalar(c.st.Cells[id].V.T[0]), untypedInt
+								}
+							}
+						}
+					}
+				}
+			}
 			if b := c.lookupLocal("rangeindex"); b != nil {
 				return scalar(tb.Add(b.V.T[0], tb.Int(1))), untypedInt
 			}
@@ -1231,6 +1245,23 @@ func (c *specCtx) call(n *SCall) (Val, types.Type) {
 		// closed(ch): the channel value has been closed (ghost flag)
 		v, _ := arg(0)
 		return scalar(tb.Select(c.ghostArr("closed", SArrB), v.T[0])), boolType
+	case "received", "receivedNonNil":
+		// received(): number of channel receives so far; receivedNonNil(): how many received interface values (errors) were non-nil
+		// (ghost counters; old(...) gives their value at function entry)
+		nm := map[string]string{"received": "recvcount", "receivedNonNil": "recvnonnil"}[name]
+		var m map[string]*Term
+		switch {
+		case c.inOld:
+			m = c.oldGhost
+		case c.ghost != nil:
+			m = c.ghost
+		default:
+			m = c.st.Ghost
+		}
+		if t, ok := m[nm]; ok {
+			return scalar(t), untypedInt
+		}
+		return scalar(tb.Const("G0!"+nm, SInt)), untypedInt
 	case "sent":
 		// sent(ch): number of sends on the channel value so far (ghost counter)
 		v, _ := arg(0)
